@@ -70,9 +70,13 @@ def one(name, args):
         open(os.path.join(wt, "seed", "m", "demo.py"), "w").write(demo)
         cmd = "cd %s && PYTHONDONTWRITEBYTECODE=1 PYTHONPATH=%s timeout 120 /venv/bin/python seed/m/demo.py" % (wt, wt)
         r1 = sh(cmd)
-        sh("git -C %s stash -q" % wt)
+        # (not `git stash`: the stash ref is shared by all worktrees of /repo, so concurrent runs would pop each other's patch)
+        sh("git -C %s diff > %s/.seed.diff && git -C %s checkout -q -- ." % (wt, wt, wt))
         r0 = sh(cmd)
-        sh("git -C %s stash pop -q" % wt)
+        ra = sh("git -C %s apply %s/.seed.diff" % (wt, wt))
+        if ra.returncode != 0:
+            out["apply"] = "RE-APPLY FAILED: " + ra.stdout[-200:]
+            return out
         out["demo"] = "patched exit %d / clean exit %d" % (r1.returncode, r0.returncode)
         out["demo_ok"] = r1.returncode != 0 and r0.returncode == 0
         runs = {}
